@@ -67,8 +67,45 @@ type Sim struct {
 	MaxSlice    time.Duration
 	NoEarlyStop bool
 
+	// Sequential mode (no synctest bubble): exactly one task runs at a time and tasks
+	// block only at park points, so quiescence is "the released task parked again or
+	// finished"; tasks report through evCh.
+	seq  bool
+	evCh chan struct{}
+
 	schedHash uint64
 	idle      int
+}
+
+// NewSequential returns a scheduler for tasks that never block outside park points. The
+// caller starts n goroutines, calls AwaitEvents(n) once, and every task calls TaskDone
+// when it finishes.
+func NewSequential(tp *tape.Tape) *Sim {
+	s := New(tp)
+	s.seq = true
+	s.evCh = make(chan struct{}, 1<<16)
+	s.TimeWeight = 0
+	return s
+}
+
+// AwaitEvents blocks until n park/done events were reported (sequential mode).
+func (s *Sim) AwaitEvents(n int) {
+	for i := 0; i < n; i++ {
+		<-s.evCh
+	}
+}
+
+// TaskDone reports that a task finished (sequential mode).
+func (s *Sim) TaskDone() {
+	if s.seq {
+		s.evCh <- struct{}{}
+	}
+}
+
+func (s *Sim) wait() {
+	if !s.seq {
+		synctest.Wait()
+	}
 }
 
 type Event struct {
@@ -114,7 +151,11 @@ func (s *Sim) Logf(format string, a ...any) {
 		line = s.Norm(line)
 	}
 	s.mu.Lock()
-	s.trace = append(s.trace, fmt.Sprintf("%8.3fs ", time.Since(s.start).Seconds())+line)
+	stamp := fmt.Sprintf("%8.3fs ", time.Since(s.start).Seconds())
+	if s.seq {
+		stamp = fmt.Sprintf("step %4d ", s.Steps) // no simulated clock outside a bubble
+	}
+	s.trace = append(s.trace, stamp+line)
 	s.traceStep = append(s.traceStep, s.Steps)
 	s.mu.Unlock()
 }
@@ -163,6 +204,9 @@ func (s *Sim) Park(key string, opts []Option) int {
 	e := &entry{key: k, opts: opts, ch: make(chan int, 1)}
 	s.parked[k] = e
 	s.mu.Unlock()
+	if s.seq {
+		s.evCh <- struct{}{}
+	}
 	r := <-e.ch
 	// Fresh random stream (map order, select order) for the released goroutine, named by
 	// the decision that released it: independent of the goroutine's history.
@@ -241,7 +285,7 @@ func (s *Sim) ParkedKeys() []string {
 	return ks
 }
 
-func (s *Sim) Quiesce() { synctest.Wait() }
+func (s *Sim) Quiesce() { s.wait() }
 
 func class(key string) string {
 	if i := strings.IndexByte(key, ':'); i >= 0 {
@@ -257,7 +301,7 @@ type Filter func(key string) bool
 // caller should decide whether to advance time or stop. allowTime controls whether
 // "advance time" is among the alternatives.
 func (s *Sim) Step(allowTime bool, filter Filter) (progressed bool) {
-	synctest.Wait()
+	s.wait()
 	s.mu.Lock()
 	keys := make([]string, 0, len(s.parked))
 	for k := range s.parked {
@@ -322,6 +366,9 @@ func (s *Sim) Step(allowTime bool, filter Filter) (progressed bool) {
 		s.Logf("release %s", a.key)
 	}
 	e.ch <- s.Steps<<8 | a.opt
+	if s.seq {
+		<-s.evCh // the released task parked again or finished
+	}
 	return true
 }
 
